@@ -134,9 +134,16 @@ Proof. intros. apply (nth_off_add vs 0%nat ch). Qed.
 Definition sel_act (o : option hvolt) : option key :=
   match o with Some (_, None) => Some [] | Some (_, Some fs) => Some (mk_key fs) | None => None end.
 Definition sel_plain (o : option hvolt) : option Q :=
-  match o with Some (b, None) => Some b | _ => None end.
+  match o with
+  | Some (b, None) => Some b
+  | Some (b, Some fs) => if key_eqb (mk_key fs) [] then Some b else None
+  | None => None
+  end.
 Definition sel_dep (k : key) (o : option hvolt) : option (Q * list Z) :=
-  match o with Some (b, Some fs) => if key_eqb (mk_key fs) k then Some (b, []) else None | _ => None end.
+  match o with
+  | Some (b, Some fs) => if key_eqb (mk_key fs) [] then None else if key_eqb (mk_key fs) k then Some (b, []) else None
+  | _ => None
+  end.
 
 (* single channel steps *)
 Lemma set_voltage_summ : forall ch value st c1 st1, tr_set_voltage ch value st = (c1, st1) ->
@@ -164,13 +171,13 @@ Proof.
       cbn. now apply Qeq_bool_iff.
 Qed.
 
-Lemma set_indexed_summ : forall ch b fs st c1 st1, tr_set_indexed ch b fs st = Ok (c1, st1) ->
+Lemma set_indexed_summ : forall ch b fs st c1 st1, tr_set_indexed_nz ch b fs st = Ok (c1, st1) ->
   (forall c, act st1 c = if Nat.eqb c ch then Some (mk_key fs) else act st c) /\
   t_plain st1 = t_plain st /\
   (forall ck, dp st1 ck = if ck_eqb ck (ch, mk_key fs) then Some (b, t_iters st) else dp st ck) /\
   t_iters st1 = t_iters st /\ t_label st1 = t_label st.
 Proof.
-  intros ch b fs st c1 st1 H. unfold tr_set_indexed in H.
+  intros ch b fs st c1 st1 H. unfold tr_set_indexed_nz in H.
   assert (G : forall cs, Ok (cs, mkT (t_label st) (t_iters st) (aset Nat.eqb ch (mk_key fs) (t_active st))
                                (aset ck_eqb (ch, mk_key fs) (b, t_iters st) (t_deps st)) (t_plain st) (t_stable st)) = Ok (c1, st1) ->
     (forall c, act st1 c = if Nat.eqb c ch then Some (mk_key fs) else act st c) /\
@@ -196,12 +203,36 @@ Lemma hold_summ : forall vs c0 st cs st', tr_hold_chs c0 vs st = Ok (cs, st') ->
 Proof.
   induction vs as [|[b [fs|]] vs IH]; intros c0 st cs st' H; cbn [tr_hold_chs] in H.
   - inversion H; subst. split; [|auto]. repeat split; cbn; auto; try lia. intros; apply oqeq_refl.
-  - destruct (tr_set_indexed c0 b fs st) as [[c1 st1]|] eqn:E1; cbn in H; [|discriminate].
+  - unfold tr_set_indexed in H. destruct (key_eqb (mk_key fs) []) eqn:Ez.
+    { (* all factors zero: the plain path *)
+      cbn [bind] in H. destruct (tr_set_voltage c0 b st) as [c1 st1] eqn:E1.
+      destruct (tr_hold_chs (S c0) vs st1) as [[c2 st2]|] eqn:E2; cbn in H; [|discriminate]. inversion H; subst; clear H.
+      destruct (set_voltage_summ _ _ _ _ _ E1) as (A1 & P1 & D1 & I1 & L1).
+      destruct (IH _ _ _ _ E2) as ((A2 & P2 & D2 & I2 & L2) & L2' & Lb2).
+      assert (Lc1 : labels c1 = []).
+      { unfold tr_set_voltage in E1.
+        destruct (negb (opt_key_is (alookup Nat.eqb c0 (t_active st)) []) || negb (opt_q_is (alookup Nat.eqb c0 (t_plain st)) b));
+          inversion E1; reflexivity. }
+      pose proof Ez as Ez'. apply key_eqb_spec in Ez'.
+      split; [|split; [congruence|rewrite labels_app, Lc1, Lb2; reflexivity]].
+      repeat split; try congruence; try lia.
+      + intros ch. rewrite A2, A1. cbn [nth_off]. destruct (Nat.eqb ch c0) eqn:Ec.
+        * apply Nat.eqb_eq in Ec. subst. rewrite nth_off_lt by lia. cbn. rewrite Ez'. reflexivity.
+        * reflexivity.
+      + intros ch. eapply oqeq_trans; [apply P2|]. cbn [nth_off]. destruct (Nat.eqb ch c0) eqn:Ec.
+        * apply Nat.eqb_eq in Ec. subst. rewrite nth_off_lt by lia. cbn. rewrite Ez. cbn.
+          specialize (P1 c0). rewrite Nat.eqb_refl in P1. exact P1.
+        * apply oqeq_orlast. specialize (P1 ch). now rewrite Ec in P1.
+      + intros [c k]. rewrite D2. unfold dp. rewrite D1, I1. cbn [nth_off fst snd].
+        destruct (Nat.eqb c c0) eqn:Ec.
+        * apply Nat.eqb_eq in Ec. subst. rewrite nth_off_lt by lia. cbn. rewrite Ez. reflexivity.
+        * reflexivity. }
+    destruct (tr_set_indexed_nz c0 b fs st) as [[c1 st1]|] eqn:E1; cbn in H; [|discriminate].
     destruct (tr_hold_chs (S c0) vs st1) as [[c2 st2]|] eqn:E2; cbn in H; [|discriminate]. inversion H; subst; clear H.
     destruct (set_indexed_summ _ _ _ _ _ _ E1) as (A1 & P1 & D1 & I1 & L1).
     destruct (IH _ _ _ _ E2) as ((A2 & P2 & D2 & I2 & L2) & L2' & Lb2).
     assert (Lc1 : labels c1 = []).
-    { unfold tr_set_indexed in E1. destruct (alookup ck_eqb (c0, mk_key fs) (t_deps st)).
+    { unfold tr_set_indexed_nz in E1. destruct (alookup ck_eqb (c0, mk_key fs) (t_deps st)).
       - destruct (required_increment_from (b, t_iters st) d fs); cbn in E1; [|discriminate].
         inversion E1. destruct (negb (Qeq_bool a 0) || negb (opt_key_is (alookup Nat.eqb c0 (t_active st)) (mk_key fs))); reflexivity.
       - destruct (forallb (fun it => it =? 0) (t_iters st)); inversion E1; reflexivity. }
@@ -211,11 +242,11 @@ Proof.
       * apply Nat.eqb_eq in Ec. subst. rewrite nth_off_lt by lia. reflexivity.
       * reflexivity.
     + intros ch. eapply oqeq_trans; [apply P2|]. unfold pl. rewrite P1. cbn [nth_off]. destruct (Nat.eqb ch c0) eqn:Ec.
-      * apply Nat.eqb_eq in Ec. subst. rewrite nth_off_lt by lia. cbn. apply oqeq_refl.
+      * apply Nat.eqb_eq in Ec. subst. rewrite nth_off_lt by lia. cbn. rewrite Ez. cbn. apply oqeq_refl.
       * apply oqeq_refl.
     + intros [c k]. rewrite D2, D1, I1. cbn [nth_off fst snd]. unfold ck_eqb; cbn [fst snd].
       destruct (Nat.eqb c c0) eqn:Ec; cbn [andb].
-      * apply Nat.eqb_eq in Ec. subst. rewrite nth_off_lt by lia. cbn.
+      * apply Nat.eqb_eq in Ec. subst. rewrite nth_off_lt by lia. cbn. rewrite Ez.
         destruct (key_eqb k (mk_key fs)) eqn:Ek.
         -- apply key_eqb_spec in Ek. subst. assert (X : key_eqb (mk_key fs) (mk_key fs) = true) by now apply key_eqb_spec.
            rewrite X. cbn. now rewrite app_nil_r.
